@@ -135,9 +135,13 @@ func (s *rrSegFetcher) doCheck() {
 		},
 		Retries: 3,
 	}
-	s.client.ExpressR(args, func(args ndn.ExpressCallbackArgs) {
+	// doCheck runs on the client goroutine, which is the only receiver of the
+	// outgoing pipeline: queueing the Interest there (ExpressR) would block this
+	// goroutine for good once the pipeline is full. Express it right here instead.
+	args.callback = func(args ndn.ExpressCallbackArgs) {
 		s.client.seginpipe <- rrSegHandleDataArgs{state: state, args: args}
-	})
+	}
+	s.client.expressRImpl(args)
 }
 
 // handle incoming data
